@@ -289,6 +289,41 @@ impl C17 {
             }
         }
 
+        // a third declaration of the same key: an env var and *two* parameters of one tx spelled exactly alike
+        // (the first parameter is a legitimate shadow of the env var, the second is a duplicate parameter)
+        if collide && rng.chance(1, 4) && !names.env.is_empty() {
+            if let Some(ti) = (0..names.params.len()).find(|t| names.params[*t].len() >= 2) {
+                let e = names.env[rng.usize(names.env.len())].clone();
+                if !names.params[ti].contains(&e) {
+                    for k in 0..2 {
+                        let old = names.params[ti][k].clone();
+                        src = rename_ident(&src, &old, &e);
+                        names.params[ti][k] = e.clone();
+                    }
+                    collision = Some("env+param+param".into());
+                    ctx.count("collision-attempt/env+param+param");
+                }
+            }
+        }
+        // whatever the renames above produced: two declarations visible to one tx whose keys are equal up to
+        // letter case must be refused, with one exception (a parameter spelled exactly like an env var shadows it)
+        let mut forbidden: Option<String> = None;
+        for (ti, ps) in names.params.iter().enumerate() {
+            let mut decls: Vec<(&str, &String)> = names.env.iter().map(|n| ("env", n)).chain(names.parties.iter().map(|n| ("party", n))).chain(ps.iter().map(|n| ("param", n))).collect();
+            decls.sort();
+            for i in 0..decls.len() {
+                for j in i + 1..decls.len() {
+                    let (a, b) = (decls[i], decls[j]);
+                    if a.1.to_lowercase() == b.1.to_lowercase() {
+                        let shadow = a.0 == "env" && b.0 == "param" && a.1 == b.1 && ps.iter().filter(|p| *p == b.1).count() == 1;
+                        if !shadow {
+                            forbidden = Some(format!("{}+{}:tx{}", a.0, b.0, ti));
+                        }
+                    }
+                }
+            }
+        }
+
         // what lowering produces (reference for "the embedded IR is the lowered IR")
         let mut lowered = vec![];
         for txd in &g.prog.txs {
@@ -309,6 +344,10 @@ impl C17 {
         }
         if let Some(c) = &collision {
             ctx.count(&format!("collision-accepted-by-analyzer/{c}"));
+        }
+        if let Some(f) = &forbidden {
+            let kinds = f.split(':').next().unwrap_or("?").to_string();
+            ctx.violation(format!("collision:{kinds}:accepted-by-analyzer"), json!({"source": src, "declarations_sharing_a_key": f}));
         }
 
         // run the CLI
@@ -590,12 +629,78 @@ impl C17 {
     }
 }
 
+impl C17 {
+    /// Parameters typed by records, variants and aliases of them (alone or next to aliases of primitive types):
+    /// every key the embedded IR requires must be declared by the interface.
+    fn typed_params(&self, ctx: &mut Ctx, idx: u64, rng: &mut Rng) {
+        let mut src = String::from("party Owner;\ntype Proof { a: Int, b: Bytes, }\ntype Choice { Yes { n: Int, }, No, }\n");
+        let chain = rng.usize(4); // 0 = no alias
+        let base = *rng.pick(&["Proof", "Choice"]);
+        let mut last = base.to_string();
+        for k in 0..chain {
+            src.push_str(&format!("type Alias{k}x = {last};\n"));
+            last = format!("Alias{k}x");
+        }
+        if rng.bool() {
+            src.push_str("type Lovelace = Int;\n");
+        }
+        if rng.chance(1, 3) {
+            src.push_str("type Blob = Bytes;\ntype Blob2 = Blob;\n");
+        }
+        let pty = match rng.below(4) {
+            0 => format!("List<{last}>"),
+            1 => format!("Map<Int, {last}>"),
+            _ => last.clone(),
+        };
+        let pname = *rng.pick(&["proof", "Proof2", "PROOF_X", "pr"]);
+        let extra = if src.contains("Lovelace") && rng.bool() { ", tip: Lovelace" } else { "" };
+        src.push_str(&format!("tx settle(q: Int, {pname}: {pty}{extra}) {{\n  input s {{ from: Owner, min_amount: Ada(q), }}\n  output {{ to: Owner, amount: s - fees{}, datum: {pname}, }}\n}}\n", if extra.is_empty() { "" } else { " - Ada(tip)" }));
+        let Ok(low) = front(&src, "settle") else {
+            ctx.count("typed-params/front-rejected");
+            return;
+        };
+        let dir = scratch_dir("C17tp");
+        let src_path = dir.join(format!("tp{idx}.tx3"));
+        let out_path = dir.join(format!("tp{idx}.tii"));
+        if std::fs::write(&src_path, &src).is_err() {
+            return;
+        }
+        let env = Env::from_env();
+        let o = std::process::Command::new(&env.tx3c).arg("build").arg(&src_path).arg("--emit").arg("tii").arg("-o").arg(&out_path).stdin(std::process::Stdio::null()).output();
+        let text = std::fs::read_to_string(&out_path);
+        let _ = std::fs::remove_file(&src_path);
+        let _ = std::fs::remove_file(&out_path);
+        let _ = std::fs::remove_dir(&dir);
+        let (Ok(o), Ok(text)) = (o, text) else {
+            ctx.count("typed-params/cli-failed");
+            return;
+        };
+        if !o.status.success() {
+            ctx.count("typed-params/cli-failed");
+            return;
+        }
+        let Ok(tii) = serde_json::from_str::<Value>(&text) else {
+            ctx.violation("tii-not-json", json!({"source": src}));
+            return;
+        };
+        ctx.eval();
+        ctx.count("typed-params/checked");
+        ctx.nontrivial_str(&src);
+        let declared: BTreeSet<String> = tii["transactions"]["settle"].get("params").map(props_of).unwrap_or_default().into_keys().chain(tii.get("parties").and_then(|p| p.as_object()).map(|o| o.keys().cloned().collect::<Vec<_>>()).unwrap_or_default()).chain(tii.get("environment").map(props_of).unwrap_or_default().into_keys()).collect();
+        for k in find_params(&low).keys() {
+            if !declared.contains(k) {
+                ctx.violation("undeclared:param:typed-by-record-or-alias", json!({"source": src, "ir_requires": k, "declared": declared, "tii": text.chars().take(3000).collect::<String>()}));
+            }
+        }
+    }
+}
+
 impl Property for C17 {
     fn id(&self) -> &'static str {
         "C17"
     }
     fn rule(&self) -> String {
-        "the real `tx3c build <src> --emit tii` binary is run (one process per program) on generated programs whose parameters, env vars and parties are re-spelled in lower / UPPER / mixed case, with unused parameters / env vars / parties, policies of every form, optional --profile / --profile-env-file flags and, in the collision phase, two declared names made equal up to case; the file is read as JSON and for every tx: the envelope decodes (declared encoding and version) to an IR canonically equal to lower(P, tx) computed in-process; every key of find_params(decoded IR) is declared as a parameter, party or environment entry under the identical spelling (a case-insensitive match only is `spelling`, none is `undeclared`), is declared in one section only and no other declared key equals it up to case (`collision`); a request built from exactly the declared keys (values typed by the declared schemas; parties and parameters in args, environment in env) passes parse_resolve_request, returns every required key with the supplied value and leaves no value parameter after apply_args. Non-trivial: the IR requires >= 1 key and >= 2 keys are declared; distinct = distinct (source, tx).".into()
+        "the real `tx3c build <src> --emit tii` binary is run (one process per program) on generated programs whose parameters, env vars and parties are re-spelled in lower / UPPER / mixed case, with unused parameters / env vars / parties, policies of every form, optional --profile / --profile-env-file flags and, in the collision phase, two declared names made equal up to case; the file is read as JSON and for every tx: the envelope decodes (declared encoding and version) to an IR canonically equal to lower(P, tx) computed in-process; every key of find_params(decoded IR) is declared as a parameter, party or environment entry under the identical spelling (a case-insensitive match only is `spelling`, none is `undeclared`), is declared in one section only and no other declared key equals it up to case (`collision`); a request built from exactly the declared keys (values typed by the declared schemas; parties and parameters in args, environment in env) passes parse_resolve_request, returns every required key with the supplied value and leaves no value parameter after apply_args. typed-params: hand-shaped programs whose tx takes a parameter typed by a record, a variant, a chain of 0..3 aliases of one, or a list / map of it (next to, or without, aliases of primitive types) and uses it as a datum: every key the embedded IR requires must be declared. In the collision phase any two declarations visible to one tx whose keys are equal up to letter case (incl. an env var plus two parameters spelled alike) must be refused by the analyzer, a parameter spelled exactly like an env var excepted. Non-trivial: the IR requires >= 1 key and >= 2 keys are declared; distinct = distinct (source, tx).".into()
     }
     fn assumptions(&self) -> Vec<String> {
         vec![
@@ -607,12 +712,12 @@ impl Property for C17 {
     }
     fn phases(&self, tier: Tier) -> Vec<Phase> {
         match tier {
-            Tier::Quick => vec![Phase::new("spelling", 8_000, Profile::Release).budget(60_000), Phase::new("collision", 4_000, Profile::Release).budget(60_000)],
-            Tier::Thorough => vec![Phase::new("spelling", 400_000, Profile::Release).budget(60_000), Phase::new("collision", 200_000, Profile::Release).budget(60_000)],
+            Tier::Quick => vec![Phase::new("spelling", 8_000, Profile::Release).budget(60_000), Phase::new("collision", 4_000, Profile::Release).budget(60_000), Phase::new("typed-params", 400, Profile::Release).budget(60_000)],
+            Tier::Thorough => vec![Phase::new("spelling", 400_000, Profile::Release).budget(60_000), Phase::new("collision", 200_000, Profile::Release).budget(60_000), Phase::new("typed-params", 20_000, Profile::Release).budget(60_000)],
         }
     }
     fn required_features(&self, _tier: Tier) -> Vec<String> {
-        let mut v: Vec<String> = ["cli/ok", "closure/closed", "feature/unused-param", "feature/unused-env", "feature/env-vars", "feature/policy-assign", "feature/policy-hash-only", "feature/policy-with-script", "cli/profile-env-file", "cli/profile-flag"].iter().map(|s| s.to_string()).collect();
+        let mut v: Vec<String> = ["cli/ok", "closure/closed", "feature/unused-param", "feature/unused-env", "feature/env-vars", "feature/policy-assign", "feature/policy-hash-only", "feature/policy-with-script", "cli/profile-env-file", "cli/profile-flag", "typed-params/checked", "collision-attempt/env+param+param"].iter().map(|s| s.to_string()).collect();
         for k in ["env", "party", "param"] {
             for s in ["lower", "upper", "mixed"] {
                 v.push(format!("style/{k}/{s}"));
@@ -621,6 +726,9 @@ impl Property for C17 {
         v
     }
     fn run_case(&self, ctx: &mut Ctx, phase: &str, idx: u64, rng: &mut Rng) {
+        if phase == "typed-params" {
+            return self.typed_params(ctx, idx, rng);
+        }
         self.one(ctx, idx, rng, phase == "collision");
     }
 }
